@@ -304,6 +304,8 @@ def validate_traces(module: str, events: list, prop: str, shards: int = 16, per_
                     res["violations"].append((tid, clause))
             elif t[0] == "TOTAL":
                 tot = t
+            elif t[0] == "OUT":
+                res.setdefault("outs", []).append(t[1:])
         if tot is None or r["rc"] != 0 or "Model checking completed. No error has been found." not in r["out"]:
             sys.stdout.write(r["out"][-5000:])
             die_machinery(f"trace validation {module} shard {i} did not complete (rc={r['rc']}); file kept: "
